@@ -123,12 +123,21 @@ func checkRAs(a, b *ndp.RouterAdvertisement) problems {
 
 // checkDurations reports whether two time.Duration values are consistent.
 func checkDurations(want, got time.Duration) bool {
+	// These timers are sent as a whole number of milliseconds.
+	want, got = want.Truncate(time.Millisecond), got.Truncate(time.Millisecond)
+
 	if want == 0 || got == 0 {
 		// If either duration is unspecified, nothing to do.
 		return true
 	}
 
 	return want == got
+}
+
+// sameSeconds reports whether two lifetimes are equal as they appear on the
+// wire, which is as a whole number of seconds.
+func sameSeconds(a, b time.Duration) bool {
+	return a.Truncate(time.Second) == b.Truncate(time.Second)
 }
 
 // checkMTUs reports whether two NDP MTU option values are consistent, or
@@ -176,10 +185,10 @@ func checkPrefixes(want, got []ndp.Option) problems {
 			//
 			// TODO: deal with decrementing lifetimes? CoreRAD doesn't support
 			// them at the moment so we can't verify them either.
-			if a.PreferredLifetime != b.PreferredLifetime {
+			if !sameSeconds(a.PreferredLifetime, b.PreferredLifetime) {
 				ps.push("prefix_information_preferred_lifetime", prefixStr(a), a.PreferredLifetime, b.PreferredLifetime)
 			}
-			if a.ValidLifetime != b.ValidLifetime {
+			if !sameSeconds(a.ValidLifetime, b.ValidLifetime) {
 				ps.push("prefix_information_valid_lifetime", prefixStr(a), a.ValidLifetime, b.ValidLifetime)
 			}
 		}
@@ -218,7 +227,7 @@ func checkRoutes(want, got []ndp.Option) problems {
 			//
 			// TODO: deal with decrementing lifetimes? CoreRAD doesn't support
 			// them at the moment so we can't verify them either.
-			if a.Preference == b.Preference && a.RouteLifetime != b.RouteLifetime {
+			if a.Preference == b.Preference && !sameSeconds(a.RouteLifetime, b.RouteLifetime) {
 				ps.push("route_information_lifetime", routeStr(a), a.RouteLifetime, b.RouteLifetime)
 			}
 		}
@@ -249,7 +258,7 @@ func checkRDNSS(want, got []ndp.Option) problems {
 
 	// Assuming both are advertising RDNSS, the options must be identical.
 	for i := range dnsA {
-		if a, b := dnsA[i].Lifetime, dnsB[i].Lifetime; a != b {
+		if a, b := dnsA[i].Lifetime, dnsB[i].Lifetime; !sameSeconds(a, b) {
 			ps.push("rdnss_lifetime", "", a, b)
 		}
 
@@ -300,7 +309,7 @@ func checkDNSSL(want, got []ndp.Option) problems {
 
 	// Assuming both are advertising DNSSL, the options must be identical.
 	for i := range dnsA {
-		if a, b := dnsA[i].Lifetime, dnsB[i].Lifetime; a != b {
+		if a, b := dnsA[i].Lifetime, dnsB[i].Lifetime; !sameSeconds(a, b) {
 			ps.push("dnssl_lifetime", "", a, b)
 		}
 
